@@ -67,137 +67,404 @@ func c17Protos(repo string) ([]string, error) {
 	return out, nil
 }
 
-// c17ArgUses collects node.Args[k].Value / node.Args[k].ToBool() uses below n.
-func c17ArgUses(n ast.Node, bad *error) []string {
-	uses := map[string]bool{}
-	ast.Inspect(n, func(x ast.Node) bool {
-		ix, ok := x.(*ast.IndexExpr)
-		if !ok {
-			return true
-		}
-		sel, ok := ix.X.(*ast.SelectorExpr)
-		if !ok || sel.Sel.Name != "Args" {
-			return true
-		}
-		if id, ok := sel.X.(*ast.Ident); !ok || id.Name != "node" {
-			return true
-		}
-		if _, ok := intLit(ix.Index); !ok {
-			*bad = fmt.Errorf("node.Args indexed by a non-literal")
-		}
-		return true
-	})
-	// second pass with parents: selector over the index expression
-	ast.Inspect(n, func(x ast.Node) bool {
-		sel, ok := x.(*ast.SelectorExpr)
-		if !ok {
-			return true
-		}
-		ix, ok := sel.X.(*ast.IndexExpr)
-		if !ok {
-			return true
-		}
-		s2, ok := ix.X.(*ast.SelectorExpr)
-		if !ok || s2.Sel.Name != "Args" {
-			return true
-		}
-		k, ok := intLit(ix.Index)
-		if !ok {
-			return true
-		}
-		if sel.Sel.Name != "Value" && sel.Sel.Name != "ToBool" {
-			*bad = fmt.Errorf("node.Args[%d].%s is not modelled", k, sel.Sel.Name)
-		}
-		uses[fmt.Sprintf("(%d, %s)", k, leanStr(sel.Sel.Name))] = true
-		return true
-	})
-	var out []string
-	for u := range uses {
-		out = append(out, u)
-	}
-	sort.Strings(out)
-	return out
+// ---- semantic analysis of buildPrimitive -----------------------------------------------------
+//
+// What an arm of buildPrimitive does is collected by abstract interpretation rather than by its syntactic shape:
+// expressions are resolved to "the call node", "node.Args", "node.Args[k]", "node.Args[k].Value",
+// "node.Args[k].ToBool()", "node.Fun.Name" through local aliases (x := …), parameters of same-package helper
+// functions and closures, which are inlined transitively (bounded depth, cycle-safe).  The arms may be a switch on
+// node.Fun.Name (or an alias of it), an if / else-if chain comparing it with literals, or mixtures.
+
+type c17Val struct {
+	kind string // "node" "args" "arg" "val" "bool" "fun" "fname" "lit" "closure" ""
+	k    int
+	lit  *ast.FuncLit
+	sc   map[string]c17Val
+}
+
+type c17An struct {
+	funcs map[string]*ast.FuncDecl // package-level functions of package condition
+	uses  map[string]bool
+	ctors map[string]bool
+	stack map[string]bool
+	err   error
 }
 
 var c17Ctors = map[string]bool{"NewIpInMatcher": true, "NewIPMatcher": true, "NewHashMatcher": true, "NewHostMatcher": true,
-	"NewTimeMatcher": true, "NewPeriodicTimeMatcher": true, "Compile": true}
+	"NewTimeMatcher": true, "NewPeriodicTimeMatcher": true, "Compile": true, "MustCompile": true}
 
-// c17Validators lists the fallible constructors called in a case with the node.Args indices they receive.
-func c17Validators(n ast.Node) []string {
-	var out []string
-	ast.Inspect(n, func(x ast.Node) bool {
-		call, ok := x.(*ast.CallExpr)
-		if !ok {
-			return true
+func (a *c17An) resolve(e ast.Expr, sc map[string]c17Val) c17Val {
+	switch x := e.(type) {
+	case *ast.ParenExpr:
+		return a.resolve(x.X, sc)
+	case *ast.Ident:
+		return sc[x.Name]
+	case *ast.FuncLit:
+		return c17Val{kind: "closure", lit: x, sc: sc}
+	case *ast.SelectorExpr:
+		r := a.resolve(x.X, sc)
+		switch {
+		case r.kind == "node" && x.Sel.Name == "Args":
+			return c17Val{kind: "args"}
+		case r.kind == "node" && x.Sel.Name == "Fun":
+			return c17Val{kind: "fun"}
+		case r.kind == "fun" && x.Sel.Name == "Name":
+			return c17Val{kind: "fname"}
+		case r.kind == "arg" && x.Sel.Name == "Value":
+			a.uses[fmt.Sprintf("(%d, %s)", r.k, leanStr("Value"))] = true
+			return c17Val{kind: "val", k: r.k}
+		case r.kind == "arg" && x.Sel.Name != "Kind" && x.Sel.Name != "ValuePos" && x.Sel.Name != "ToBool":
+			a.err = fmt.Errorf("node.Args[%d].%s is not modelled", r.k, x.Sel.Name)
 		}
-		name := ""
-		switch f := call.Fun.(type) {
-		case *ast.Ident:
-			name = f.Name
-		case *ast.SelectorExpr:
-			if id, ok := f.X.(*ast.Ident); ok && id.Name == "regexp" {
-				name = f.Sel.Name
+	case *ast.IndexExpr:
+		r := a.resolve(x.X, sc)
+		if r.kind == "args" {
+			k, ok := intLit(x.Index)
+			if !ok {
+				a.err = fmt.Errorf("node.Args indexed by a non-literal")
+				return c17Val{}
+			}
+			return c17Val{kind: "arg", k: int(k)}
+		}
+	case *ast.CallExpr:
+		if sel, ok := x.Fun.(*ast.SelectorExpr); ok && len(x.Args) == 0 {
+			r := a.resolve(sel.X, sc)
+			if r.kind == "arg" {
+				if sel.Sel.Name != "ToBool" {
+					a.err = fmt.Errorf("node.Args[%d].%s() is not modelled", r.k, sel.Sel.Name)
+					return c17Val{}
+				}
+				a.uses[fmt.Sprintf("(%d, %s)", r.k, leanStr("ToBool"))] = true
+				return c17Val{kind: "bool", k: r.k}
 			}
 		}
-		if !c17Ctors[name] {
-			return true
+	}
+	return c17Val{}
+}
+
+// call handles one call expression: a fallible constructor is recorded, a same-package helper or a closure is inlined.
+func (a *c17An) call(c *ast.CallExpr, sc map[string]c17Val, depth int) {
+	var args []c17Val
+	for _, e := range c.Args {
+		args = append(args, a.resolve(e, sc))
+	}
+	name := ""
+	switch f := c.Fun.(type) {
+	case *ast.Ident:
+		name = f.Name
+		if v, ok := sc[f.Name]; ok && v.kind == "closure" {
+			a.inline("closure@"+fmt.Sprint(v.lit.Pos()), v.lit.Type, v.lit.Body, v.sc, args, depth)
+			return
 		}
+	case *ast.SelectorExpr:
+		if id, ok := f.X.(*ast.Ident); ok && id.Name == "regexp" {
+			name = f.Sel.Name
+		}
+	case *ast.FuncLit:
+		a.inline("closure@"+fmt.Sprint(f.Pos()), f.Type, f.Body, sc, args, depth)
+		return
+	}
+	if c17Ctors[name] {
 		var idx []string
-		for _, a := range call.Args {
-			if sel, ok := a.(*ast.SelectorExpr); ok && sel.Sel.Name == "Value" {
-				if ix, ok := sel.X.(*ast.IndexExpr); ok {
-					if k, ok := intLit(ix.Index); ok {
-						idx = append(idx, fmt.Sprint(k))
+		for _, v := range args {
+			if v.kind == "val" {
+				idx = append(idx, fmt.Sprint(v.k))
+			}
+		}
+		if name == "MustCompile" {
+			a.err = fmt.Errorf("regexp.MustCompile on a condition argument (panics instead of returning an error) is not modelled")
+		}
+		a.ctors[fmt.Sprintf("(%s, [%s])", leanStr(name), strings.Join(idx, ", "))] = true
+		return
+	}
+	if fd, ok := a.funcs[name]; ok && fd.Body != nil {
+		if _, isIdent := c.Fun.(*ast.Ident); isIdent {
+			a.inline(name, fd.Type, fd.Body, map[string]c17Val{}, args, depth)
+		}
+	}
+}
+
+func (a *c17An) inline(key string, ft *ast.FuncType, body *ast.BlockStmt, outer map[string]c17Val, args []c17Val, depth int) {
+	if depth > 6 || a.stack[key] {
+		return
+	}
+	interesting := false
+	for _, v := range args {
+		if v.kind != "" {
+			interesting = true
+		}
+	}
+	if !interesting && !strings.HasPrefix(key, "closure@") {
+		return // a helper that receives nothing derived from the call node cannot touch its arguments
+	}
+	sc := map[string]c17Val{}
+	for k, v := range outer {
+		sc[k] = v
+	}
+	i := 0
+	if ft.Params != nil {
+		for _, fld := range ft.Params.List {
+			for _, n := range fld.Names {
+				if i < len(args) {
+					sc[n.Name] = args[i]
+				} else {
+					delete(sc, n.Name)
+				}
+				i++
+			}
+		}
+	}
+	a.stack[key] = true
+	a.block(body, sc, depth+1)
+	delete(a.stack, key)
+}
+
+// block walks statements in order, maintaining aliases; every expression is resolved (recording uses) and
+// every call handled.
+func (a *c17An) block(n ast.Node, sc map[string]c17Val, depth int) {
+	ast.Inspect(n, func(x ast.Node) bool {
+		switch v := x.(type) {
+		case *ast.FuncLit:
+			return false // analysed when called
+		case *ast.AssignStmt:
+			for _, r := range v.Rhs {
+				a.block(r, sc, depth)
+			}
+			if len(v.Lhs) == len(v.Rhs) {
+				for i, l := range v.Lhs {
+					if id, ok := l.(*ast.Ident); ok {
+						if r := a.resolve(v.Rhs[i], sc); r.kind != "" {
+							sc[id.Name] = r
+						} else {
+							delete(sc, id.Name)
+						}
+					}
+				}
+			} else {
+				for _, l := range v.Lhs {
+					if id, ok := l.(*ast.Ident); ok {
+						delete(sc, id.Name)
 					}
 				}
 			}
+			return false
+		case *ast.DeclStmt:
+			if gd, ok := v.Decl.(*ast.GenDecl); ok {
+				for _, sp := range gd.Specs {
+					if vs, ok := sp.(*ast.ValueSpec); ok {
+						for i, id := range vs.Names {
+							if i < len(vs.Values) {
+								a.block(vs.Values[i], sc, depth)
+								if r := a.resolve(vs.Values[i], sc); r.kind != "" {
+									sc[id.Name] = r
+									continue
+								}
+							}
+							delete(sc, id.Name)
+						}
+					}
+				}
+			}
+			return false
+		case *ast.CallExpr:
+			a.resolve(v, sc)
+			a.call(v, sc, depth)
+			return true
+		case *ast.SelectorExpr:
+			a.resolve(v, sc)
+			return true
+		case *ast.IndexExpr:
+			a.resolve(v, sc)
+			return true
 		}
-		out = append(out, fmt.Sprintf("(%s, [%s])", leanStr(name), strings.Join(idx, ", ")))
 		return true
 	})
+}
+
+// c17Labels returns the string literals an arm condition compares node.Fun.Name with (x == "a" || x == "b").
+func (a *c17An) labels(e ast.Expr, sc map[string]c17Val) ([]string, bool) {
+	switch x := e.(type) {
+	case *ast.ParenExpr:
+		return a.labels(x.X, sc)
+	case *ast.BinaryExpr:
+		if x.Op == token.LOR {
+			l, ok1 := a.labels(x.X, sc)
+			r, ok2 := a.labels(x.Y, sc)
+			return append(l, r...), ok1 && ok2
+		}
+		if x.Op == token.EQL {
+			if s, ok := strLit(x.Y); ok && a.resolve(x.X, sc).kind == "fname" {
+				return []string{s}, true
+			}
+			if s, ok := strLit(x.X); ok && a.resolve(x.Y, sc).kind == "fname" {
+				return []string{s}, true
+			}
+		}
+	}
+	return nil, false
+}
+
+type c17Arm struct {
+	labels []string
+	body   []ast.Stmt
+	sc     map[string]c17Val
+}
+
+func c17CopyScope(sc map[string]c17Val) map[string]c17Val {
+	out := map[string]c17Val{}
+	for k, v := range sc {
+		out[k] = v
+	}
 	return out
 }
 
+// arms splits a statement list into the arms selected by node.Fun.Name.
+func (a *c17An) arms(stmts []ast.Stmt, sc map[string]c17Val, depth int, out *[]c17Arm, hasDefault *bool) error {
+	for _, st := range stmts {
+		switch v := st.(type) {
+		case *ast.SwitchStmt:
+			if v.Init != nil {
+				a.block(v.Init, sc, depth)
+			}
+			if v.Tag != nil && a.resolve(v.Tag, sc).kind == "fname" {
+				for _, c := range v.Body.List {
+					cc := c.(*ast.CaseClause)
+					if cc.List == nil {
+						*hasDefault = true
+						continue
+					}
+					var ls []string
+					for _, e := range cc.List {
+						s, ok := strLit(e)
+						if !ok {
+							return fmt.Errorf("case label is not a string literal")
+						}
+						ls = append(ls, s)
+					}
+					*out = append(*out, c17Arm{ls, cc.Body, c17CopyScope(sc)})
+				}
+				continue
+			}
+			if v.Tag == nil { // switch { case name == "a": … }
+				all := true
+				var tmp []c17Arm
+				def := false
+				for _, c := range v.Body.List {
+					cc := c.(*ast.CaseClause)
+					if cc.List == nil {
+						def = true
+						continue
+					}
+					var ls []string
+					for _, e := range cc.List {
+						l, ok := a.labels(e, sc)
+						if !ok {
+							all = false
+						}
+						ls = append(ls, l...)
+					}
+					tmp = append(tmp, c17Arm{ls, cc.Body, c17CopyScope(sc)})
+				}
+				if all && len(tmp) > 0 {
+					*out = append(*out, tmp...)
+					*hasDefault = *hasDefault || def
+					continue
+				}
+			}
+			return fmt.Errorf("a switch of buildPrimitive is not on node.Fun.Name")
+		case *ast.IfStmt:
+			cur := v
+			for cur != nil {
+				if cur.Init != nil {
+					a.block(cur.Init, sc, depth)
+				}
+				ls, ok := a.labels(cur.Cond, sc)
+				if !ok {
+					return fmt.Errorf("an if of buildPrimitive does not compare node.Fun.Name with literals")
+				}
+				*out = append(*out, c17Arm{ls, cur.Body.List, c17CopyScope(sc)})
+				switch e := cur.Else.(type) {
+				case *ast.IfStmt:
+					cur = e
+				case *ast.BlockStmt:
+					if err := a.arms(e.List, sc, depth, out, hasDefault); err != nil {
+						return err
+					}
+					cur = nil
+				default:
+					cur = nil
+				}
+			}
+		case *ast.ReturnStmt:
+			*hasDefault = true // the fall-through result: unsupported primitive
+		case *ast.AssignStmt, *ast.DeclStmt:
+			a.block(v, sc, depth)
+		case *ast.BlockStmt:
+			if err := a.arms(v.List, sc, depth, out, hasDefault); err != nil {
+				return err
+			}
+		default:
+			return fmt.Errorf("statement of buildPrimitive not understood (%T)", st)
+		}
+	}
+	return nil
+}
+
 func c17Cases(repo string) ([]string, error) {
-	rel := "bfe_basic/condition/build.go"
-	_, f, err := parseFile(repo, rel)
-	if err != nil {
-		return nil, err
+	dir := "bfe_basic/condition"
+	funcs := map[string]*ast.FuncDecl{}
+	for _, rel := range []string{"build.go", "primitive.go", "composite.go", "condition.go"} {
+		_, f, err := parseFile(repo, dir+"/"+rel)
+		if err != nil {
+			return nil, err
+		}
+		for _, d := range f.Decls {
+			if fd, ok := d.(*ast.FuncDecl); ok && fd.Recv == nil {
+				funcs[fd.Name.Name] = fd
+			}
+		}
 	}
-	fd := findFunc(f, "", "buildPrimitive")
-	if fd == nil || fd.Body == nil || len(fd.Body.List) != 1 {
-		return nil, fmt.Errorf("%s: buildPrimitive is not a single switch", rel)
+	fd := funcs["buildPrimitive"]
+	if fd == nil || fd.Body == nil || fd.Type.Params == nil || len(fd.Type.Params.List) != 1 || len(fd.Type.Params.List[0].Names) != 1 {
+		return nil, fmt.Errorf("%s: buildPrimitive(node) not found", dir)
 	}
-	sw, ok := fd.Body.List[0].(*ast.SwitchStmt)
-	if !ok {
-		return nil, fmt.Errorf("%s: buildPrimitive is not a single switch", rel)
+	root := map[string]c17Val{fd.Type.Params.List[0].Names[0].Name: {kind: "node"}}
+	top := &c17An{funcs: funcs, uses: map[string]bool{}, ctors: map[string]bool{}, stack: map[string]bool{"buildPrimitive": true}}
+	var arms []c17Arm
+	hasDefault := false
+	if err := top.arms(fd.Body.List, root, 0, &arms, &hasDefault); err != nil {
+		return nil, fmt.Errorf("%s/build.go: %v", dir, err)
+	}
+	if top.err != nil {
+		return nil, fmt.Errorf("%s/build.go: %v", dir, top.err)
+	}
+	if !hasDefault {
+		return nil, fmt.Errorf("%s/build.go: buildPrimitive has no default result", dir)
 	}
 	var out []string
 	seen := map[string]bool{}
-	hasDefault := false
-	for _, st := range sw.Body.List {
-		cc := st.(*ast.CaseClause)
-		if cc.List == nil {
-			hasDefault = true
-			continue
+	for _, arm := range arms {
+		a := &c17An{funcs: funcs, uses: map[string]bool{}, ctors: map[string]bool{}, stack: map[string]bool{"buildPrimitive": true}}
+		a.block(&ast.BlockStmt{List: arm.body}, arm.sc, 0)
+		if a.err != nil {
+			return nil, fmt.Errorf("%s/build.go: %v", dir, a.err)
 		}
-		var bad error
-		uses := c17ArgUses(&ast.BlockStmt{List: cc.Body}, &bad)
-		if bad != nil {
-			return nil, fmt.Errorf("%s: %v", rel, bad)
+		var uses, ctors []string
+		for u := range a.uses {
+			uses = append(uses, u)
 		}
-		for _, e := range cc.List {
-			name, ok := strLit(e)
-			if !ok || seen[name] {
-				return nil, fmt.Errorf("%s: case label not a unique string literal", rel)
+		for c := range a.ctors {
+			ctors = append(ctors, c)
+		}
+		sort.Strings(uses)
+		sort.Strings(ctors)
+		for _, name := range arm.labels {
+			if seen[name] {
+				return nil, fmt.Errorf("%s/build.go: primitive %s has two arms", dir, name)
 			}
 			seen[name] = true
-			out = append(out, fmt.Sprintf("(%s, %s, [%s], [%s])", leanStr(name), c17Bytes(name), strings.Join(uses, ", "),
-				strings.Join(c17Validators(&ast.BlockStmt{List: cc.Body}), ", ")))
+			out = append(out, fmt.Sprintf("(%s, %s, [%s], [%s])", leanStr(name), c17Bytes(name), strings.Join(uses, ", "), strings.Join(ctors, ", ")))
 		}
-	}
-	if !hasDefault {
-		return nil, fmt.Errorf("%s: buildPrimitive has no default case", rel)
 	}
 	sort.Strings(out)
 	return out, nil
